@@ -1711,6 +1711,7 @@ def normalize(tree, relpath=None):
     _split_tuple_assign(tree)
     if relpath is not None and not os.environ.get('VERIF_NO_REFNORM'):
         _inline_new_constants(tree, relpath)
+        _tables_to_ladders(tree, relpath)
         _renest_methods(tree, relpath)
         _partial_closures(tree)
         _inline_new_helpers(tree, relpath)
@@ -1770,6 +1771,7 @@ def normalize(tree, relpath=None):
     for n in ast.walk(tree):
         if isinstance(n, (ast.FunctionDef, ast.AsyncFunctionDef)):
             _propagate(n)
+    _distribute_calls(tree)
     ast.fix_missing_locations(tree)
     return tree
 
@@ -1871,6 +1873,106 @@ def _inline_new_constants(tree, relpath):
             return n
     for _round in range(3):
         R().visit(tree)
+
+
+def _tables_to_ladders(tree, relpath):
+    """N29: a lookup table the rules were never confirmed against, read through `.get`, is the ladder it replaces
+
+        T = {K1: V1, K2: V2}    (module or class level, bound once, constant keys; not in the reference table)
+        T.get(k, D)     ->     V1 if k == K1 else (V2 if k == K2 else D)          (D defaults to None)
+
+    for a key expression that may be evaluated repeatedly (a name, a constant, an attribute chain).  Followed by
+    N30: `(A if c else B)(args)` -> `A(args) if c else B(args)` when every argument is a name, constant or attribute chain."""
+    known = set(_reference().get(relpath, {}).get('constants', [])) if _reference() and relpath in _reference() else None
+    if known is None:
+        return
+    tables = {}
+
+    def collect(body, prefix):
+        for n in body:
+            if isinstance(n, ast.ClassDef):
+                collect(n.body, n.name)
+            elif isinstance(n, ast.Assign) and len(n.targets) == 1 and isinstance(n.targets[0], ast.Name) and isinstance(n.value, ast.Dict) \
+                    and n.value.keys and all(isinstance(k, ast.Constant) for k in n.value.keys) \
+                    and not any(isinstance(x, (ast.Call, ast.Await, ast.Lambda, ast.ListComp, ast.DictComp, ast.SetComp, ast.GeneratorExp))
+                                for v in n.value.values for x in ast.walk(v)):
+                q_ = (prefix + '.' if prefix else '') + n.targets[0].id
+                if q_ not in known:
+                    tables[(prefix, n.targets[0].id)] = n.value
+    collect(tree.body, '')
+    if not tables:
+        return
+    # a table is a constant only if nothing else in the unit mentions it except to call .get on it
+    uses_ok = {}
+    parents = {}
+    for n in ast.walk(tree):
+        for c in ast.iter_child_nodes(n):
+            parents[id(c)] = n
+
+    def is_get(node):
+        par = parents.get(id(node))
+        gp = parents.get(id(par)) if par is not None else None
+        return isinstance(par, ast.Attribute) and par.attr == 'get' and isinstance(gp, ast.Call) and gp.func is par \
+            and 1 <= len(gp.args) <= 2 and not gp.keywords and _simple_arg(gp.args[0])
+    for n in ast.walk(tree):
+        key = None
+        if isinstance(n, ast.Name) and isinstance(n.ctx, ast.Load) and ('', n.id) in tables:
+            key = ('', n.id)
+            node = n
+        elif isinstance(n, ast.Attribute) and isinstance(n.ctx, ast.Load) and isinstance(n.value, ast.Name) and n.value.id in ('self', 'cls'):
+            hit = [k for k in tables if k[0] and k[1] == n.attr]
+            if len(hit) == 1:
+                key, node = hit[0], n
+        if key is not None:
+            uses_ok[key] = uses_ok.get(key, True) and is_get(node)
+    stores = {}
+    for n in ast.walk(tree):
+        if isinstance(n, ast.Name) and not isinstance(n.ctx, ast.Load):
+            stores[n.id] = stores.get(n.id, 0) + 1
+    good = {k: v for k, v in tables.items() if uses_ok.get(k) and stores.get(k[1], 0) == 1}
+    if not good:
+        return
+
+    class R(ast.NodeTransformer):
+        def visit_Call(self, c):
+            self.generic_visit(c)
+            f = c.func
+            if not (isinstance(f, ast.Attribute) and f.attr == 'get' and 1 <= len(c.args) <= 2 and not c.keywords):
+                return c
+            t = f.value
+            key = None
+            if isinstance(t, ast.Name) and ('', t.id) in good:
+                key = ('', t.id)
+            elif isinstance(t, ast.Attribute) and isinstance(t.value, ast.Name) and t.value.id in ('self', 'cls'):
+                hit = [k for k in good if k[0] and k[1] == t.attr]
+                key = hit[0] if len(hit) == 1 else None
+            if key is None:
+                return c
+            d = good[key]
+            out = c.args[1] if len(c.args) == 2 else ast.Constant(value=None)
+            for k_, v_ in reversed(list(zip(d.keys, d.values))):
+                test = ast.Compare(left=fast_copy(c.args[0]), ops=[ast.Eq()], comparators=[fast_copy(k_)])
+                out = ast.IfExp(test=test, body=fast_copy(v_), orelse=out)
+            for x in ast.walk(out):
+                if isinstance(x, (ast.expr,)) and not hasattr(x, 'lineno'):
+                    ast.copy_location(x, c)
+            return ast.copy_location(out, c)
+    R().visit(tree)
+
+
+def _distribute_calls(tree):
+    """N30 (see N29): a call whose callee is a conditional expression is the conditional expression of the calls"""
+    class R(ast.NodeTransformer):
+        def visit_Call(self, c):
+            self.generic_visit(c)
+            if isinstance(c.func, ast.IfExp) and not c.keywords and all(_simple_arg(a) for a in c.args):
+                def mk(fn_):
+                    if isinstance(fn_, ast.IfExp):
+                        return ast.copy_location(ast.IfExp(test=fn_.test, body=mk(fn_.body), orelse=mk(fn_.orelse)), c)
+                    return ast.copy_location(ast.Call(func=fn_, args=[fast_copy(a) for a in c.args], keywords=[]), c)
+                return mk(c.func)
+            return c
+    R().visit(tree)
 
 
 def _fold_constants(tree):
